@@ -6,7 +6,9 @@
 EXTENDS SymOrbits
 CONSTANTS LATS, NSITES,
           POSCAT,     \* name of the position catalogue
-          MAGNETIC    \* "none"; "z": sites may carry moments 0, +z, -z; "zx": also +x
+          MAGNETIC,   \* "none"; "z": sites may carry moments 0, +z, -z; "zx": also +x
+          SUBREPS     \* symmetrisation with a subgroup H (option use_symmetries_index): "sub" = representatives of the triples
+                      \* w.r.t. H (the code); "full" = w.r.t. the full group while averaging uses H (must fail SubReach)
 
 POS == CASE POSCAT = "c3v"   -> { <<0, 0, 0>>, <<1, 1, 1>> }
          [] POSCAT = "pair"  -> { <<0, 0, 0>>, <<2, 0, 1>> }
@@ -17,8 +19,22 @@ MOMS == CASE MAGNETIC = "none" -> { <<0, 0, 0>> }
           [] MAGNETIC = "z" -> { <<0, 0, 0>>, <<0, 0, 1>>, <<0, 0, -1>> }
           [] MAGNETIC = "zx" -> { <<0, 0, 0>>, <<0, 0, 1>>, <<0, 0, -1>>, <<1, 0, 0>> }
 
-VARIABLES pc, lat, sites, ops, amap, tvec, rlist, tmap, irr, shells, mixed
-vars == <<pc, lat, sites, ops, amap, tvec, rlist, tmap, irr, shells, mixed>>
+VARIABLES pc, lat, sites, ops, amap, tvec, rlist, tmap, irr, shells, mixed,
+          sub,     \* for every kind of subgroup: the set of operation numbers (indices into ops) that form it
+          irrs     \* for every kind of subgroup: the irreducible triples used when only that subgroup is applied
+vars == <<pc, lat, sites, ops, amap, tvec, rlist, tmap, irr, shells, mixed, sub, irrs>>
+(* proper subgroups a user may select: proper rotations without time reversal; identity + one two-fold rotation (the first in
+   the list, possibly a screw); identity + inversion.  A kind the group does not have degenerates to {identity}. *)
+SubKinds == {"proper", "c2", "inv"}
+NegId3 == M3(LAMBDA i, j : IF i = j THEN -1 ELSE 0)
+SubIdx(o, kind) ==
+   LET N == 1..Len(o)
+       id == {n \in N : o[n] = Identity}
+       P == {n \in N : DetI(o[n].W) = 1 /\ ~o[n].tr}
+       C == {n \in P : o[n].W # Id3 /\ Compose(o[n], o[n]) = Identity}
+   IN CASE kind = "proper" -> P
+        [] kind = "c2" -> id \cup (IF C = {} THEN {} ELSE {CHOOSE n \in C : \A m \in C : n <= m})
+        [] kind = "inv" -> {n \in N : ~o[n].tr /\ o[n].W \in {Id3, NegId3}}
 
 (* R vectors used for the triple maps: deliberately not closed under the point groups (images may fall outside) *)
 RL == << <<0, 0, 0>>, <<1, 0, 0>>, <<0, 1, 0>>, <<0, 0, 1>>, <<-1, 0, 0>>, <<1, 1, 0>>, <<0, -1, 1>>, <<1, 1, 1>>, <<0, 0, -2>> >>
@@ -30,6 +46,7 @@ AllSites == 1..Len(sites)
 TM(n, x) == <<VAdd(MV(ops[n].W, x[1]), VSub(tvec[n][x[2]], tvec[n][x[3]])), amap[n][x[2]], amap[n][x[3]]>>
 Init == /\ pc = "chosen" /\ lat \in LATS /\ sites \in Structures /\ DistinctSites(sites)
         /\ ops = <<>> /\ amap = <<>> /\ tvec = <<>> /\ rlist = RL /\ tmap = <<>> /\ irr = {} /\ shells = {} /\ mixed = {}
+        /\ sub = <<>> /\ irrs = <<>>
 (* structures whose cell is not primitive are left unbuilt (named exclusion PrimitiveCell) *)
 Build == /\ pc = "chosen"
          /\ LET SG == SpaceGroupOf(lat, sites) IN
@@ -46,7 +63,14 @@ Build == /\ pc = "chosen"
                                  IN y \in X => (y = x \/ KeyLess(Key(RL, x), Key(RL, y)))}
                    /\ shells' = {sh \in ProjShells : ShellAllowedIn(lat, SG, sh)}
                    /\ mixed' = MixedCentreSites(lat, sites, SG)
-              ELSE /\ pc' = "excluded" /\ UNCHANGED <<ops, amap, tvec, tmap, irr, shells, mixed>>
+                   /\ sub' = [kind \in SubKinds |-> SubIdx(ops', kind)]
+                   /\ irrs' = [kind \in SubKinds |->
+                                LET X == Triples(RL, AllSites, AllSites)
+                                    H == IF SUBREPS = "full" THEN 1..Len(ops') ELSE SubIdx(ops', kind) IN
+                                {x \in X : \A n \in H :
+                                    LET y == <<VAdd(MV(ops'[n].W, x[1]), VSub(tvec'[n][x[2]], tvec'[n][x[3]])), amap'[n][x[2]], amap'[n][x[3]]>>
+                                    IN y \in X => (y = x \/ KeyLess(Key(RL, x), Key(RL, y)))}]
+              ELSE /\ pc' = "excluded" /\ UNCHANGED <<ops, amap, tvec, tmap, irr, shells, mixed, sub, irrs>>
          /\ UNCHANGED <<lat, sites, rlist>>
 Next == Build
 Spec == Init /\ [][Next]_vars
@@ -91,5 +115,12 @@ Flip(x) == <<VNeg(x[1]), x[3], x[2]>>
 FullShellsAllowed == Built => (IF lat = "hex" THEN {"s", "p", "d"} ELSE {"s", "p", "d", "sp3d2", "t2g", "eg"}) \subseteq shells
 (* equivalent sites are alike *)
 MixedOrbitClosed == Built => \A n \in 1..Len(ops) : \A k \in AllSites : (k \in mixed) <=> (amap[n][k] \in mixed)
+(* symmetrisation with a subgroup: the selected operations form a group, and the representatives reach every listed triple
+   under the operations that are actually applied *)
+SubgroupClosed == Built => \A kind \in SubKinds : LET H == sub[kind] IN
+                     /\ \E n \in H : ops[n] = Identity
+                     /\ \A n, m \in H : \E k \in H : ops[k] = Compose(ops[n], ops[m])
+SubReach == Built => LET BB == Box IN \A kind \in SubKinds : LET H == sub[kind]  I == irrs[kind] IN
+                     I \subseteq BB /\ \A x \in BB : \E r \in I : \E n \in H : TM(n, r) = x
 FlipCommutes == Built => LET NN == N0  BB == Box IN \A n \in NN : \A x \in BB : TM(n, Flip(x)) = Flip(TM(n, x))
 =============================================================================
